@@ -122,7 +122,9 @@ func elFromFile(path string) (*eventlog.CryptoAgileLog, error) {
 }
 
 // fromEventLog returns the contents of a UEFI variable that an SP 800-155 event points to.
-func (opts *Options) fromEventLog() ([]byte, error) {
+// fromEventLog resolves the first locator of the matching firmware manufacturer, trying the given
+// locator types in order.
+func (opts *Options) fromEventLog(locatorTypes ...uint32) ([]byte, error) {
 	if opts == nil {
 		return nil, ErrOptionsNil
 	}
@@ -139,16 +141,8 @@ func (opts *Options) fromEventLog() ([]byte, error) {
 		Getter:             opts.Getter,
 		UEFIVariableReader: opts.UEFIVariableReader,
 	}
-	for _, evts := range [][]*eventlog.SP800155Event3{
-		// Raw data takes precedence over UEFI variables.
-		evts[eventlog.RIMLocationRaw],
-		// UEFI variables take precedence over local device paths.
-		evts[eventlog.RIMLocationVariable],
-		// UEFI local device paths take precedence over URIs.
-		evts[eventlog.RIMLocationLocal],
-		// Finally reach out to the network.
-		evts[eventlog.RIMLocationURI]} {
-		for _, evt := range evts {
+	for _, locatorType := range locatorTypes {
+		for _, evt := range evts[locatorType] {
 			if len(opts.FirmwareManufacturer) == 0 || evt.FirmwareManufacturerStr.Data == opts.FirmwareManufacturer {
 				return exel.Locate(evt.RIMLocatorType, evt.RIMLocator.Data, locopts)
 			}
@@ -267,9 +261,13 @@ func Endorsement(opts *Options) (out []byte, err error) {
 	var quote, endorsement []byte
 	var objectName string
 	var evErr, quoteErr, internetErr error
-	// First try the event logger.
-	if opts.EventLogLocation != "" && !opts.ForceFetch {
-		out, evErr = opts.fromEventLog()
+	// First try the event log's local locators. Raw data takes precedence over UEFI variables,
+	// which take precedence over local device paths. A URI locator is network evidence: it is
+	// only tried after the attestation's own local evidence.
+	useEventLog := opts.EventLogLocation != "" && !opts.ForceFetch
+	if useEventLog {
+		out, evErr = opts.fromEventLog(eventlog.RIMLocationRaw, eventlog.RIMLocationVariable,
+			eventlog.RIMLocationLocal)
 		if evErr == nil {
 			return out, nil
 		}
@@ -297,8 +295,14 @@ func Endorsement(opts *Options) (out []byte, err error) {
 		}
 	}
 
-	// Then try the internet. Never ask the bucket for anything but the object of a full-length
+	// Then try the internet: the event log's URI locator first, then the bucket object named by
+	// the measurement. Never ask the bucket for anything but the object of a full-length
 	// measurement.
+	if useEventLog {
+		if out, err := opts.fromEventLog(eventlog.RIMLocationURI); err == nil {
+			return out, nil
+		}
+	}
 	if opts.Getter == nil {
 		internetErr = ErrGetterNil
 	} else if objectName == "" {
